@@ -462,7 +462,47 @@ def interleaved_interpreters_failure(inp):
     return None
 
 
+def alternating_phases_failure(inp):
+    """{"alternating": [phase names in the order of the steps' default successors]}: ONE real NumpyInterpreter on a method
+    whose phases reuse the same statement ids with different dependency edges (ids need only be unique within a phase) and
+    follow each other.  Every step must run the statements of ITS phase, each once, after its dependencies: every statement
+    appends its own digit to <state>y, so the order of a step can be read off the value."""
+    from dagrt.exec_numpy import NumpyInterpreter
+    from pymbolic.primitives import Sum, Product
+    y = Variable("<state>y")
+
+    def app(i, digit, deps):
+        return lang.Assign(assignee="<state>y", assignee_subscript=(), expression=Sum((Product((y, 10)), digit)), condition=True,
+                           id=i, depends_on=frozenset(deps))
+    shapes = {"one": [("s0", 1, []), ("s1", 2, ["s0"])],
+              "two": [("s0", 1, []), ("s2", 3, ["s0"]), ("s1", 2, ["s2"])],
+              "three": [("s1", 2, []), ("s2", 3, ["s1"]), ("s0", 1, ["s2"])]}
+    order = {"one": "12", "two": "132", "three": "231"}
+    names = list(inp["alternating"])
+    phases = [lang.ExecutionPhase(n, names[(k + 1) % len(names)], [app(*a) for a in shapes[n]]) for k, n in enumerate(names)]
+    code = lang.DAGCode.from_phases_list(phases, names[0])
+    it = NumpyInterpreter(code, function_map={})
+    it.set_up(t_start=0.0, dt_start=1.0, context={"y": 0})
+    want = ""
+    for k in range(2 * len(names)):
+        try:
+            for _ev in it.run_single_step():
+                pass
+        except Exception as ex:            # noqa: BLE001  (a well-formed method: no step may raise)
+            return ("one interpreter, phases %s reusing statement ids: step %d (phase %s) raised %s: %s"
+                    % (names, k, names[k % len(names)], type(ex).__name__, ex))
+        want += order[names[k % len(names)]]
+        got = str(it.context["<state>y"])
+        if got != want:
+            return ("one interpreter, phases %s reusing statement ids: after step %d (phase %s) the statements ran in the order "
+                    "%s (digits appended to <state>y), expected %s" % (names, k, names[k % len(names)], got, want))
+    return None
+
+
 def replay(inp):
+    if "alternating" in inp:
+        d = alternating_phases_failure(inp)
+        return {"fails": d is not None, "detail": d}
     if "interleave" in inp:
         d = interleaved_interpreters_failure(inp)
         return {"fails": d is not None, "detail": d}
@@ -681,6 +721,13 @@ def bounded(payload):
         evals += 1
         parts["interleaved_interpreters_on_one_code"] = parts.get("interleaved_interpreters_on_one_code", 0) + 1
         d = interleaved_interpreters_failure(inp)
+        if d:
+            new_fail.append({"oracle": "all-visited", "input": inp, "detail": d, "fingerprint": None})
+    for names_ in (["one", "two"], ["two", "one"], ["one", "two", "three"], ["three", "one"], ["two", "three", "one"]):
+        inp = {"alternating": names_}
+        evals += 1
+        parts["alternating_phases_reusing_ids"] = parts.get("alternating_phases_reusing_ids", 0) + 1
+        d = alternating_phases_failure(inp)
         if d:
             new_fail.append({"oracle": "all-visited", "input": inp, "detail": d, "fingerprint": None})
     for src, inp in exhaustive_inputs(nmax_exh):
